@@ -175,9 +175,13 @@ open Aux
 
 /-! ### C14 — names -/
 
-/-- **Determinism**: a node's name is a function of (callable name, statics, input names, number of outputs) alone —
-no counter, clock or object identity enters it; building the same computation again gives the
-same name (and, inductively over the inputs, the same names throughout the graph). -/
+/-- **Determinism** (of the model's naming function): a node's name is a function of (callable name, statics, input names,
+number of outputs) alone — no counter, clock or object identity enters it; building the same computation again gives the
+same name (and, inductively over the inputs, the same names throughout the graph). This is congruence: it holds for any `R`.
+It says nothing about whether the REAL rendering of a static is a function of its value — for a set it is only because the
+elements are sorted (`c14_set_order_free`, `c14_set_sort_needed` in Props/C14b: before the fix the name followed the
+interpreter's hash seed), for an object with the default repr it is not (known finding). That part of "building the same
+program twice gives the same names" is judged on the real code by rebuilding in fresh interpreters with another hash seed. -/
 theorem c14_deterministic {σ : Type} (H : Str → Str) (R : σ → Str) (c1 c2 : Comp σ)
     (hf : c1.func.name = c2.func.name) (hs : c1.statics = c2.statics) (hi : c1.inputs = c2.inputs)
     (ho : c1.outputs = c2.outputs) :
@@ -275,10 +279,12 @@ theorem c14_full_fails {σ : Type} [Inhabited σ] (H : Str → Str) (R : σ → 
 
 /-! ### C14 — operands stay intact -/
 
-/-- **Operations leave operands intact** (model level): whatever operation is applied to the
-store of live actions — join with `match_coord_values`, broadcast, arithmetic between actions,
-stack/concatenate on a size-1 dimension, reduce, select — every action that existed before is
-still there, unchanged, at its place; at most one action is added. -/
+/-- A fact about the append-only VALUE store `step` (true by construction: `step` appends the result or returns the store):
+every array that was in the store is still there, at most one is added. It does NOT carry the clause "operations leave
+operands intact" — a store that cannot be written cannot express the pinned defects. The clause is carried by the heap
+model, which writes where the code writes: `c14_transform_intact`, `c14_history_intact` (transform / combine / select) and, for
+binary operations, `c14_join_intact`, `c14_arith_intact`, `c14_binary_history_intact`, `c14_join_local_needed` (Props/C14b),
+and by the snapshots of the tie. Kept because `c14_join_is_hstep` relates `step`'s operations to the heap model. -/
 theorem c14_operands_intact (st : List Fluent.NodeArray) (op : FOp) :
     (∀ k, k < st.length → (step st op)[k]? = st[k]?) ∧
     st.length ≤ (step st op).length ∧ (step st op).length ≤ st.length + 1 := by
@@ -472,10 +478,16 @@ theorem selectH_keeps {h h' : Heap} {a r : Nat} {crit : Option (String × Fluent
 end Aux
 
 open Aux in
-/-- **…as an invariant over every history**: for every program — any sequence of joins, broadcasts,
-arithmetic between actions, reduce, select (also when it hands back the action itself), stack/concatenate (also on
-a dimension of size 1, where the operand is squeezed on a copy or handed back) and transforms with any `func` —
-and every initial heap, every action object that existed at some point still holds the same node array at the end. -/
+/-- **…as an invariant over every history**: for every program — any sequence of select (also when it hands back the
+action itself), stack/concatenate (also on a dimension of size 1, where the operand is squeezed on a copy or handed back),
+transforms with any `func`, and `.op` statements — and every initial heap, every action object that existed at some point
+still holds the same node array at the end.
+What has content here: the `transform`, `combine` and `select` cases (`transformH`, `combineH`, `selectH` write cells). An
+`.op` statement (join, broadcast, arithmetic between actions, reduce) is `h ++ [r]` BY DEFINITION of `hstepR`, so its case is
+`keeps_append` and cannot fail; that `join` / arithmetic statements really are append-only is the subject of
+`c14_join_is_hstep`, `c14_join_intact`, `c14_arith_intact`, `c14_binary_history_intact` and `c14_join_local_needed`
+(Props/C14b: `joinH` names the assignment of `join` and where it stores); `broadcast` and `reduce` have no assignment to an
+existing `.nodes` in the code and are covered by the snapshots of the tie only. -/
 theorem c14_history_intact {P : Type} (ops : List (HOp P)) (h : Heap) :
     h.length ≤ (hrun .always h ops).length ∧ ∀ k, k < h.length → (hrun .always h ops)[k]? = h[k]? := by
   induction ops generalizing h with
@@ -1212,7 +1224,12 @@ injective hash with clean (hex) digests, statics whose rendering can be read bac
 `repr` of the argument list), clean callable names / source labels / output names, and callables distinguished by
 their `__name__` (`ok`): two nodes with the same name denote the same computation all the way down — the same
 callables, statics, parameter-to-input wiring, outputs used and numbers of outputs, at every node of the two
-graphs. (`comp` forgets only whether the name prefix was passed explicitly.) -/
+graphs. (`comp` forgets only whether the name prefix was passed explicitly.)
+`_partial`: `UniquelyDecodable R` is a HYPOTHESIS on the rendering of the statics. It is discharged in this file only for
+`σ = Unit` (no statics, the example below) and, one level deep, for `PlainArgs` (plain strings, no keyword arguments:
+`c14_injective_plain_partial`); for the real `renderStatics` over ints / floats / nested containers / keyword arguments —
+`axis=0`, the scalar of `a.add(2)` — "same static arguments" is assumed, not proved (it fails for lossy reprs:
+`c14_lossy_repr_full_fails`), and is sampled on the real code by the name-collision oracle. -/
 theorem c14_injective_deep_partial {σ : Type} (H : Str → Str) (R : σ → Str) (ok : Callable → Prop)
     (hH : Function.Injective H) (hHc : ∀ s, Clean (H s))
     (hR : UniquelyDecodable R) (hRb : ∀ s, ∃ t, R s = '[' :: t)
